@@ -263,7 +263,9 @@ def r035(an, rep):
     sf = find_size_fn(an)
     p = sf.params[0]
     bad = []
-    pts = [0, 1, 0xFF, 0x100, 0xFFFF, 0x10000, 0xFFFFFF, 0x1000000, 0x7FFFFFFF, -1, -2, -0x100]
+    from sa.feval import region_points
+    # exhaustive for a tree of comparisons with constants: every constant of the source +-1, plus CPython's own boundaries
+    pts = region_points(sf.node, {}, extra=(0, 0xFF, 0xFFFF, 0xFFFFFF, 0x7FFFFFFF, -0x100))
     for v in pts:
         want = 4 if v < 0 else (1 if v <= 0xFF else 2 if v <= 0xFFFF else 3 if v <= 0xFFFFFF else 4)
         try:
@@ -310,7 +312,7 @@ def r035(an, rep):
     except Exception as ex:
         raise AnalysisError(f"{pf.qual}: shift not evaluable: {ex}")
     bad = []
-    for v in [0, 0x7F, 0xFF, 0x100, 0x1234, 0xFFFF, 0x10000, 0xABCDEF, 0x1000000, 0x12345678]:
+    for v in [x for x in pts if x >= 0] + [0x1234, 0xABCDEF, 0x12345678]:
         n = eval_decision_tree(sf, {p: v})
         acc = 0
         units = []
